@@ -50,7 +50,13 @@ def backref_cases(quick):
     if not quick:
         import itertools
         texts += ["".join(t) for n in range(1, 5) for t in itertools.product("aAb-", repeat=n)]
-    return [{"src": p, "texts": texts} for p in progs]
+    cases = [{"src": p, "texts": texts} for p in progs]
+    # a capture that encloses a recursive call of its own subroutine: the same binding is open at several depths at once
+    rec = ["find all { ('a' maybe s 'b') = x } = s", "find all { '(' (maybe s) = x ')' } = s", "find all { ('a' maybe s 'b') = x } = s '-' x",
+           "find all { 'a' ((maybe s) = x) 'b' x } = s", "set s to pattern ('(' maybe s ')') = x\nfind all s", "find all { ('a' = y) (maybe s = x) 'b' } = s y"]
+    rtexts = ["ab", "aabb", "aaabbb", "aabb-aabb", "aabb-abb", "(())", "((()))", "()", "aabbb", "aab", "aaabbbab", "ab-ab"]
+    cases += [{"src": p, "texts": rtexts} for p in rec]
+    return cases
 
 
 def run(ctx):
